@@ -77,7 +77,8 @@ def value_check(case):
     if case["explicit_target"]:
         e.set_target_idx(targets)
     res = simplify(e.copy())
-    m = Model(orbital_space(1, 1), seed=33, braket=({"V": 1, "f": 1} if case["real"] else {}))
+    # build_term constructs V and f with bra-ket symmetry in either case
+    m = Model(orbital_space(1, 1), seed=33, braket={"V": 1, "f": 1})
     for asg in all_assignments(targets, m.orbs):
         v0, v1 = evaluate(e.sympy, asg, m), evaluate(res.sympy, asg, m)
         if v0 != v1:
